@@ -142,3 +142,783 @@ Section Prim.
       exact (find_edge_none _ _ _ F e He (conj (eq_sym K1) (eq_sym K2))).
   Qed.
 End Prim.
+
+(* ------------------------------------------------------------------ membership after map updates *)
+Lemma in_nm_insert {A} k0 (a0 : A) m k a : nsorted (map fst m) ->
+  (In (k, a) (nm_insert k0 a0 m) <-> (k = k0 /\ a = a0) \/ (k <> k0 /\ In (k, a) m)).
+Proof.
+  intros Hs. rewrite <- (nm_get_in k a _ (nm_insert_sorted k0 a0 m Hs)).
+  destruct (N.eq_dec k k0) as [->|Hne].
+  - rewrite nm_get_insert_same. split; [intros [= <-]; left; auto | intros [[_ ->]|[H _]]; [reflexivity | contradiction]].
+  - rewrite (nm_get_insert_other k0 k a0 m Hne), (nm_get_in k a m Hs). split; [intros H; right; auto | intros [[H _]|[_ H]]; [contradiction | exact H]].
+Qed.
+Lemma in_em_insert {A} k0 (a0 : A) m k a : esorted (map fst m) ->
+  (In (k, a) (em_insert k0 a0 m) <-> (k = k0 /\ a = a0) \/ (k <> k0 /\ In (k, a) m)).
+Proof.
+  intros Hs. rewrite <- (em_get_in k a _ (em_insert_sorted k0 a0 m Hs)).
+  destruct (edge_eqb k k0) eqn:E.
+  - apply edge_eqb_eq in E. subst. rewrite em_get_insert_same. split; [intros [= <-]; left; auto | intros [[_ ->]|[H _]]; [reflexivity | contradiction]].
+  - assert (Hne : k <> k0) by (intros ->; assert (edge_eqb k0 k0 = true) by (apply edge_eqb_eq; reflexivity); congruence).
+    rewrite (em_get_insert_other k0 k a0 m Hne), (em_get_in k a m Hs). split; [intros H; right; auto | intros [[H _]|[_ H]]; [contradiction | exact H]].
+Qed.
+Lemma in_nm_remove {A} k0 (m : nmap A) k a : nsorted (map fst m) ->
+  (In (k, a) (nm_remove k0 m) <-> k <> k0 /\ In (k, a) m).
+Proof.
+  intros Hs. rewrite <- (nm_get_in k a _ (nm_remove_sorted k0 m Hs)).
+  destruct (N.eq_dec k k0) as [->|Hne].
+  - rewrite nm_get_remove_same. split; [discriminate | intros [H _]; contradiction].
+  - rewrite (nm_get_remove_other k0 k m Hne), (nm_get_in k a m Hs). tauto.
+Qed.
+
+(* ------------------------------------------------------------------ primitives commute with to_static *)
+Definition with_g (c : ecfg) (g : G) : ecfg := with_graph c g.
+
+Lemma to_static_with c g1 : to_static (with_graph c g1) = s_with (to_static c) (vertices g1) (edges g1).
+Proof. reflexivity. Qed.
+
+Lemma insert_vertex_refines c v : rel c -> 0 <= b_index v ->
+  match insert_vertex (eg c) v with
+  | Ok g1 => s_insert_vertex (to_static c) v = Ok (to_static (with_graph c g1)) /\ rel (with_graph c g1)
+  | Err e => s_insert_vertex (to_static c) v = Err e
+  | Panic => False
+  end.
+Proof.
+  intros [Hi Hn] Hv0. unfold s_insert_vertex.
+  rewrite <- (has_vertex_block (eg c) Hi Hn (to_static c) (b_index v) Hv0 eq_refl).
+  destruct (has_vertex (eg c) (zn (b_index v))) eqn:Hh.
+  - assert (Hh' : has_vertex (eg c) (vindex v) = true) by exact Hh.
+    rewrite (insert_vertex_err (eg c) v Hh'). reflexivity.
+  - assert (Hh' : has_vertex (eg c) (vindex v) = false) by exact Hh.
+    destruct (insert_vertex_inv (eg c) v Hi Hh') as (g1 & E & Hi1 & Ev & Ee). rewrite E.
+    assert (Hn1 : nonneg g1).
+    { split.
+      - intros k x Hx. rewrite Ev in Hx. apply (in_nm_insert _ _ _ _ _ (gi_vsorted _ Hi)) in Hx as [[_ ->]|[_ Hx]]; [exact Hv0 | exact (proj1 Hn k x Hx)].
+      - intros k e He. rewrite Ee in He. exact (proj2 Hn k e He). }
+    split; [|split; assumption].
+    rewrite to_static_with. cbn [to_static g_blocks g_edges].
+    assert (EE : edges g1 = edges (eg c)) by (unfold edges; rewrite Ee; reflexivity). rewrite EE.
+    enough (EV : vertices g1 = ins_block v (vertices (eg c))) by (rewrite EV; reflexivity).
+    symmetry. apply blocks_ext.
+    + apply ins_block_SS; [apply vertices_SS; assumption|]. intros x Hx E'.
+      apply (in_vertices (eg c) Hi) in Hx. rewrite E' in Hx.
+      assert (nm_mem (zn (b_index v)) (Graph.g_vertices (eg c)) = true) by (apply nm_mem_in; apply in_map_iff; exists (zn (b_index v), x); auto).
+      unfold has_vertex in Hh. congruence.
+    + apply vertices_SS; assumption.
+    + intros x. rewrite in_ins_block, (in_vertices g1 Hi1), (in_vertices (eg c) Hi), Ev.
+      rewrite (in_nm_insert _ _ _ _ _ (gi_vsorted _ Hi)). cbn [vindex block_Vertex]. split.
+      * intros [->|H]; [left; auto|]. right. split; [|exact H]. intros E'.
+        assert (nm_mem (zn (b_index v)) (Graph.g_vertices (eg c)) = true) by (apply nm_mem_in; apply in_map_iff; exists (zn (b_index x), x); split; [exact E' | exact H]).
+        unfold has_vertex in Hh. congruence.
+      * intros [[_ ->]|[_ H]]; auto.
+Qed.
+
+Lemma insert_edge_refines c e : rel c -> 0 <= e_head e -> 0 <= e_tail e ->
+  match insert_edge (eg c) e with
+  | Ok g1 => s_insert_edge (to_static c) e = Ok (to_static (with_graph c g1)) /\ rel (with_graph c g1)
+  | Err x => s_insert_edge (to_static c) e = Err x
+  | Panic => False
+  end.
+Proof.
+  intros [Hi Hn] Hh0 Ht0. unfold s_insert_edge. cbn [to_static g_edges].
+  rewrite <- (get_find_edge (eg c) Hi Hn _ _ Hh0 Ht0).
+  rewrite <- (has_vertex_block (eg c) Hi Hn (to_static c) (e_head e) Hh0 eq_refl).
+  rewrite <- (has_vertex_block (eg c) Hi Hn (to_static c) (e_tail e) Ht0 eq_refl).
+  destruct (em_get (zn (e_head e), zn (e_tail e)) (Graph.g_edges (eg c))) as [e0|] eqn:Eg.
+  - assert (Hm : has_edge (eg c) (ehead e) (etail e) = true).
+    { unfold has_edge. apply em_mem_get. exists e0. exact Eg. }
+    unfold insert_edge. unfold has_edge in Hm. rewrite Hm. reflexivity.
+  - assert (Hm : has_edge (eg c) (ehead e) (etail e) = false).
+    { unfold has_edge. destruct (em_mem (ehead e, etail e) (Graph.g_edges (eg c))) eqn:M; [|reflexivity].
+      apply em_mem_get in M as [a Ha]. change (em_get (zn (e_head e), zn (e_tail e)) (Graph.g_edges (eg c)) = Some a) in Ha. congruence. }
+    destruct (has_vertex (eg c) (zn (e_head e))) eqn:Hh.
+    + destruct (has_vertex (eg c) (zn (e_tail e))) eqn:Ht.
+      * destruct (insert_edge_inv (eg c) e Hi Hm Hh Ht) as (g1 & E & Hi1 & Ev & Ee). rewrite E. cbn [negb].
+        assert (Hn1 : nonneg g1).
+        { split.
+          - intros k x Hx. rewrite Ev in Hx. exact (proj1 Hn k x Hx).
+          - intros k x Hx. rewrite Ee in Hx. apply (in_em_insert _ _ _ _ _ (ai_esorted _ (gi_adj _ Hi))) in Hx as [[_ ->]|[_ Hx]]; [auto | exact (proj2 Hn k x Hx)]. }
+        split; [|split; assumption].
+        rewrite to_static_with. cbn [to_static g_blocks g_edges].
+        assert (EV : vertices g1 = vertices (eg c)) by (unfold vertices; rewrite Ev; reflexivity). rewrite EV.
+        enough (EE : edges g1 = ins_edge_l e (edges (eg c))) by (rewrite EE; reflexivity).
+        symmetry. apply edges_ext.
+        -- apply ins_edge_SS; [apply edges_SS; assumption|]. intros x Hx [E1 E2].
+           apply (in_edges (eg c) Hi) in Hx. rewrite E1, E2 in Hx.
+           apply (em_get_in _ _ _ (ai_esorted _ (gi_adj _ Hi))) in Hx. congruence.
+        -- apply edges_SS; assumption.
+        -- intros x. rewrite in_ins_edge, (in_edges g1 Hi1), (in_edges (eg c) Hi), Ee.
+           rewrite (in_em_insert _ _ _ _ _ (ai_esorted _ (gi_adj _ Hi))).
+           change (@ehead edge edge_Edge e) with (zn (e_head e)). change (@etail edge edge_Edge e) with (zn (e_tail e)). split.
+           ++ intros [->|H]; [left; auto|]. right. split; [|exact H]. intros E'. rewrite E' in H.
+              apply (em_get_in _ _ _ (ai_esorted _ (gi_adj _ Hi))) in H. congruence.
+           ++ intros [[_ ->]|[_ H]]; auto.
+      * unfold insert_edge. unfold has_edge in Hm. rewrite Hm. unfold has_vertex in Hh, Ht. change (@ehead edge edge_Edge e) with (zn (e_head e)). change (@etail edge edge_Edge e) with (zn (e_tail e)). rewrite Hh, Ht. reflexivity.
+    + unfold insert_edge. unfold has_edge in Hm. rewrite Hm. unfold has_vertex in Hh. change (@ehead edge edge_Edge e) with (zn (e_head e)). change (@etail edge edge_Edge e) with (zn (e_tail e)). rewrite Hh. reflexivity.
+Qed.
+
+Lemma in_em_remove {A} k0 (m : emap A) k a : esorted (map fst m) ->
+  (In (k, a) (em_remove k0 m) <-> k <> k0 /\ In (k, a) m).
+Proof.
+  intros Hs. rewrite <- (em_get_in k a _ (em_remove_sorted k0 m Hs)).
+  destruct (edge_eqb k k0) eqn:E.
+  - apply edge_eqb_eq in E. subst. rewrite em_get_remove_same. split; [discriminate | intros [H _]; contradiction].
+  - assert (Hne : k <> k0) by (intros ->; assert (edge_eqb k0 k0 = true) by (apply edge_eqb_eq; reflexivity); congruence).
+    rewrite (em_get_remove_other k0 k m Hne), (em_get_in k a m Hs). tauto.
+Qed.
+
+Lemma fold_em_remove_in {A} (l : list (N * N)) : forall (m : emap A) k a, esorted (map fst m) ->
+  esorted (map fst (fold_left (fun m e => em_remove e m) l m)) /\
+  (In (k, a) (fold_left (fun m e => em_remove e m) l m) <-> ~ In k l /\ In (k, a) m).
+Proof.
+  induction l as [|k0 t IH]; intros m k a Hs; cbn [fold_left].
+  - split; [exact Hs | tauto].
+  - destruct (IH (em_remove k0 m) k a (em_remove_sorted k0 m Hs)) as [S1 S2]. split; [exact S1|].
+    rewrite S2, (in_em_remove k0 m k a Hs). cbn [In]. split.
+    + intros [H1 [H2 H3]]. split; [intros [E|E]; [congruence | contradiction] | exact H3].
+    + intros [H1 H2]. split; [tauto|]. split; [intros E; apply H1; left; congruence | exact H2].
+Qed.
+
+Lemma update_vertex_refines c i f : rel c -> 0 <= i -> (forall v, b_index (f v) = b_index v) ->
+  match update_vertex (eg c) (zn i) f with
+  | Ok g1 => s_update_block (to_static c) i f = Ok (to_static (with_graph c g1)) /\ rel (with_graph c g1)
+  | Err x => s_update_block (to_static c) i f = Err x
+  | Panic => False
+  end.
+Proof.
+  intros [Hi Hn] Hi0 Hf. unfold update_vertex, s_update_block. cbn [to_static g_blocks].
+  rewrite (get_find (eg c) Hi Hn i Hi0).
+  destruct (find_block (vertices (eg c)) i) as [v|] eqn:F; [|reflexivity].
+  set (g1 := mkGraph (nm_insert (zn i) (f v) (Graph.g_vertices (eg c))) (Graph.g_edges (eg c)) (Graph.g_successors (eg c)) (Graph.g_predecessors (eg c))).
+  assert (Eu : update_vertex (eg c) (zn i) f = Ok g1).
+  { unfold update_vertex. rewrite (get_find (eg c) Hi Hn i Hi0), F. reflexivity. }
+  assert (Hi1 : ginv g1).
+  { apply (update_vertex_inv (eg c) (zn i) f Hi); [|exact Eu]. intros x. cbn [vindex block_Vertex]. rewrite Hf. reflexivity. }
+  apply find_block_some in F as [Hv Hvi].
+  assert (Hvin : In (zn i, v) (Graph.g_vertices (eg c))) by (apply (in_vertices (eg c) Hi) in Hv; rewrite Hvi in Hv; exact Hv).
+  assert (Hn1 : nonneg g1).
+  { split.
+    - intros k x Hx. cbn [g1 Graph.g_vertices] in Hx. apply (in_nm_insert _ _ _ _ _ (gi_vsorted _ Hi)) in Hx as [[_ ->]|[_ Hx]].
+      + rewrite Hf. exact (proj1 Hn _ _ Hvin).
+      + exact (proj1 Hn k x Hx).
+    - intros k e He. exact (proj2 Hn k e He). }
+  split; [|split; assumption].
+  rewrite to_static_with. cbn [to_static g_blocks g_edges].
+  assert (EE : edges g1 = edges (eg c)) by reflexivity. rewrite EE.
+  enough (EV : vertices g1 = map (fun x => if b_index x =? i then f x else x) (vertices (eg c))) by (rewrite EV; reflexivity).
+  apply blocks_ext.
+  - apply vertices_SS; assumption.
+  - pose proof (vertices_SS (eg c) Hi Hn) as Hss. clear - Hss Hf.
+    induction Hss as [|x t Hs IH Hall]; cbn [map]; [constructor|]. constructor; [exact IH|].
+    apply Forall_forall. intros y Hy. apply in_map_iff in Hy as (z & <- & Hz). rewrite Forall_forall in Hall. specialize (Hall z Hz).
+    unfold blt in *. destruct (b_index x =? i), (b_index z =? i); rewrite ?Hf; exact Hall.
+  - intros x. rewrite (in_vertices g1 Hi1). cbn [g1 Graph.g_vertices].
+    rewrite (in_nm_insert _ _ _ _ _ (gi_vsorted _ Hi)), in_map_iff. split.
+    + intros [[Hk ->]|[Hk Hx]].
+      * exists v. split; [rewrite Hvi, Z.eqb_refl; reflexivity | exact Hv].
+      * exists x. split; [|apply (in_vertices (eg c) Hi); exact Hx].
+        destruct (b_index x =? i) eqn:E; [|reflexivity]. apply Z.eqb_eq in E. exfalso. apply Hk. rewrite E. reflexivity.
+    + intros (y & <- & Hy). destruct (b_index y =? i) eqn:E.
+      * apply Z.eqb_eq in E. left. rewrite Hf, E. split; [reflexivity|]. f_equal.
+        pose proof (find_block_in _ y (proj2 (sorted_by_SS b_index _) (vertices_SS (eg c) Hi Hn)) Hy) as F1.
+        pose proof (find_block_in _ v (proj2 (sorted_by_SS b_index _) (vertices_SS (eg c) Hi Hn)) Hv) as F2.
+        rewrite E in F1. rewrite Hvi in F2. congruence.
+      * apply Z.eqb_neq in E. right. split.
+        -- intros K. apply zn_inj in K; [contradiction | | exact Hi0].
+           apply (in_vertices (eg c) Hi) in Hy. exact (proj1 Hn _ _ Hy).
+        -- apply (in_vertices (eg c) Hi). exact Hy.
+Qed.
+
+Lemma remove_vertex_refines c i : rel c -> 0 <= i ->
+  match remove_vertex (eg c) (zn i) with
+  | Ok g1 => s_remove_vertex (to_static c) i = Ok (to_static (with_graph c g1)) /\ rel (with_graph c g1)
+  | Err x => s_remove_vertex (to_static c) i = Err x
+  | Panic => False
+  end.
+Proof.
+  intros [Hi Hn] Hi0. unfold s_remove_vertex.
+  rewrite <- (has_vertex_block (eg c) Hi Hn (to_static c) i Hi0 eq_refl).
+  destruct (has_vertex (eg c) (zn i)) eqn:Hh; cbn [negb].
+  - destruct (remove_vertex_inv (eg c) (zn i) Hi Hh) as (g1 & E & Hi1 & Ev & Ee & _). rewrite E.
+    pose proof (ai_esorted _ (gi_adj _ Hi)) as Hes.
+    destruct (incident_edges_spec (eg c) (zn i) (gi_adj _ Hi)) as (_ & Hinc_e & Hinc1 & Hinc2).
+    assert (Hein : forall k e, In (k, e) (Graph.g_edges g1) <-> In (k, e) (Graph.g_edges (eg c)) /\ fst k <> zn i /\ snd k <> zn i).
+    { intros k e. rewrite Ee. rewrite (proj2 (fold_em_remove_in (incident_edges (eg c) (zn i)) (Graph.g_edges (eg c)) k e Hes)). split.
+      - intros [H1 H2]. split; [exact H2|]. destruct k as [h t]. cbn [fst snd]. split; intros ->; apply H1; apply Hinc1; auto;
+          apply em_mem_in; apply in_map_iff; exists ((zn i, t), e) + exists ((h, zn i), e); auto.
+      - intros [H1 [H2 H3]]. split; [|exact H1]. destruct k as [h t]. intros Hin. destruct (Hinc2 h t Hin); cbn [fst snd] in *; contradiction. }
+    assert (Hn1 : nonneg g1).
+    { split.
+      - intros k x Hx. rewrite Ev in Hx. apply (in_nm_remove _ _ _ _ (gi_vsorted _ Hi)) in Hx as [_ Hx]. exact (proj1 Hn k x Hx).
+      - intros k e He. apply Hein in He as [He _]. exact (proj2 Hn k e He). }
+    split; [|split; assumption].
+    rewrite to_static_with. cbn [to_static g_blocks g_edges]. f_equal. f_equal.
+    + symmetry. apply blocks_ext; [apply vertices_SS; assumption | apply SS_filter; apply vertices_SS; assumption |].
+      intros x. rewrite (in_vertices g1 Hi1), Ev, (in_nm_remove _ _ _ _ (gi_vsorted _ Hi)), filter_In, (in_vertices (eg c) Hi), negb_true_iff, Z.eqb_neq. split.
+      * intros [H1 H2]. split; [exact H2 | intros E'; apply H1; rewrite E'; reflexivity].
+      * intros [H1 H2]. split; [|exact H1]. intros K. apply zn_inj in K; [contradiction | exact (proj1 Hn _ _ H1) | exact Hi0].
+    + symmetry. apply edges_ext; [apply edges_SS; assumption | apply SS_filter; apply edges_SS; assumption |].
+      intros x. rewrite (in_edges g1 Hi1), Hein, filter_In, (in_edges (eg c) Hi), andb_true_iff, !negb_true_iff, !Z.eqb_neq. cbn [fst snd]. split.
+      * intros [H1 [H2 H3]]. split; [exact H1|]. split; intros E'; [apply H2 | apply H3]; rewrite E'; reflexivity.
+      * intros [H1 [H2 H3]]. split; [exact H1|]. destruct (proj2 Hn _ _ H1) as [N1 N2].
+        split; intros K; apply zn_inj in K; auto.
+  - rewrite (remove_vertex_err (eg c) (zn i) Hh). reflexivity.
+Qed.
+
+(* ------------------------------------------------------------------ edges_out / edges_in *)
+Section Lookup.
+  Variable g : G.
+  Hypothesis Hi : ginv g.
+  Hypothesis Hn : nonneg g.
+  Definition ekey_of (e : edge) : N * N := (zn (e_head e), zn (e_tail e)).
+
+  Lemma lookup_edges_ok keys : (forall k, In k keys -> em_mem k (Graph.g_edges g) = true) ->
+    exists l, lookup_edges (Graph.g_edges g) keys = Ok l /\ Forall2 (fun k e => em_get k (Graph.g_edges g) = Some e) keys l.
+  Proof.
+    induction keys as [|k t IH]; intros H; cbn [lookup_edges].
+    - exists []. split; [reflexivity | constructor].
+    - destruct (proj1 (em_mem_get k _) (H k (or_introl eq_refl))) as [e He]. rewrite He.
+      destruct (IH (fun k' Hk' => H k' (or_intror Hk'))) as (l & El & Hl). rewrite El. cbn [bind].
+      exists (e :: l). split; [reflexivity | constructor; assumption].
+  Qed.
+
+  Lemma get_edge_facts k e : em_get k (Graph.g_edges g) = Some e ->
+    In e (edges g) /\ k = ekey_of e /\ 0 <= e_head e /\ 0 <= e_tail e.
+  Proof.
+    intros H. apply (em_get_in _ _ _ (ai_esorted _ (gi_adj _ Hi))) in H.
+    pose proof (ekey g Hi k e H) as Hk. split; [apply (in_edges g Hi); unfold ekey_of in Hk; rewrite <- Hk; exact H|].
+    split; [exact Hk | exact (proj2 Hn k e H)].
+  Qed.
+
+  Lemma lookup_filter keys (P : edge -> bool) : esorted keys ->
+    (forall k, In k keys -> em_mem k (Graph.g_edges g) = true) ->
+    (forall e, In e (edges g) -> (P e = true <-> In (ekey_of e) keys)) ->
+    lookup_edges (Graph.g_edges g) keys = Ok (filter P (edges g)).
+  Proof.
+    intros Hs Hmem HP. destruct (lookup_edges_ok keys Hmem) as (l & El & Hl). rewrite El. f_equal.
+    apply edges_ext.
+    - (* l is sorted because the keys are *)
+      clear El Hmem HP. induction Hl as [|k e ks es Hke Hrest IH]; [constructor|].
+      inversion Hs as [|? ? Hs' Hall]; subst. constructor; [apply IH; exact Hs'|].
+      apply Forall_forall. intros e' He'. rewrite Forall_forall in Hall.
+      assert (Hex : exists k', In k' ks /\ em_get k' (Graph.g_edges g) = Some e').
+      { clear - Hrest He'. induction Hrest as [|k0 e0 ks0 es0 H0 Hr IH']; [destruct He'|].
+        destruct He' as [<-|He']; [exists k0; split; [left; reflexivity | exact H0]|].
+        destruct (IH' He') as (k' & Hk' & Hg). exists k'. split; [right; exact Hk' | exact Hg]. }
+      destruct Hex as (k' & Hk' & Hg'). specialize (Hall k' Hk').
+      destruct (get_edge_facts k e Hke) as (_ & -> & A1 & A2). destruct (get_edge_facts k' e' Hg') as (_ & -> & B1 & B2).
+      apply ecmp_lt_elt; assumption.
+    - apply SS_filter. apply edges_SS; assumption.
+    - intros e. rewrite filter_In. split.
+      + intros He.
+        assert (Hex : exists k, In k keys /\ em_get k (Graph.g_edges g) = Some e).
+        { clear - Hl He. induction Hl as [|k0 e0 ks0 es0 H0 Hr IH']; [destruct He|].
+          destruct He as [<-|He]; [exists k0; split; [left; reflexivity | exact H0]|].
+          destruct (IH' He) as (k' & Hk' & Hg). exists k'. split; [right; exact Hk' | exact Hg]. }
+        destruct Hex as (k & Hk & Hg). destruct (get_edge_facts k e Hg) as (Hin & -> & _).
+        split; [exact Hin | apply HP; assumption].
+      + intros [Hin HPe]. apply HP in HPe; [|exact Hin].
+        assert (Hg : em_get (ekey_of e) (Graph.g_edges g) = Some e).
+        { apply (em_get_in _ _ _ (ai_esorted _ (gi_adj _ Hi))). apply (in_edges g Hi). exact Hin. }
+        clear - Hl HPe Hg. induction Hl as [|k0 e0 ks0 es0 H0 Hr IH']; [destruct HPe|].
+        destruct HPe as [->|HPe]; [left; congruence | right; apply IH'; exact HPe].
+  Qed.
+
+  Lemma esorted_map_head a ss : nsorted ss -> esorted (map (fun s => (a, s)) ss).
+  Proof.
+    induction 1 as [|x t Hs IH Hall]; cbn [map]; constructor; [exact IH|].
+    apply Forall_forall. intros k Hk. apply in_map_iff in Hk as (y & <- & Hy). rewrite Forall_forall in Hall.
+    unfold ecmp. cbn [fst snd]. rewrite N.compare_refl. exact (Hall y Hy).
+  Qed.
+  Lemma esorted_map_tail a ps : nsorted ps -> esorted (map (fun p => (p, a)) ps).
+  Proof.
+    induction 1 as [|x t Hs IH Hall]; cbn [map]; constructor; [exact IH|].
+    apply Forall_forall. intros k Hk. apply in_map_iff in Hk as (y & <- & Hy). rewrite Forall_forall in Hall.
+    unfold ecmp. cbn [fst snd]. rewrite (Hall y Hy). reflexivity.
+  Qed.
+
+  Lemma edges_out_refines c' i : 0 <= i -> vertices g = g_blocks c' -> edges g = g_edges c' ->
+    edges_out g (zn i) = cfg_edges_out c' i.
+  Proof.
+    intros Hi0 EV EE. unfold edges_out, cfg_edges_out.
+    rewrite <- (has_vertex_block g Hi Hn c' i Hi0 EV). unfold has_vertex. rewrite <- (gi_skeys g Hi).
+    destruct (nm_get (zn i) (Graph.g_successors g)) as [ss|] eqn:Es.
+    - assert (Hm : nm_mem (zn i) (Graph.g_successors g) = true) by (apply nm_mem_get; eauto). rewrite Hm, <- EE.
+      pose proof (gi_adj g Hi) as Ha.
+      apply lookup_filter.
+      + apply esorted_map_head. exact (ai_sset g Ha _ _ Es).
+      + intros k Hk. apply in_map_iff in Hk as (s & <- & Hs). apply (ai_succ g Ha). eauto.
+      + intros e He. rewrite Z.eqb_eq, in_map_iff. unfold ekey_of. split.
+        * intros <-. exists (zn (e_tail e)). split; [reflexivity|].
+          assert (Hmem : em_mem (zn (e_head e), zn (e_tail e)) (Graph.g_edges g) = true).
+          { apply em_mem_in. apply in_map_iff. exists ((zn (e_head e), zn (e_tail e)), e). split; [reflexivity | apply (in_edges g Hi); exact He]. }
+          apply (ai_succ g Ha) in Hmem as (s' & Hs' & Hin). congruence.
+        * intros (s & [= K1 K2] & _). apply (in_edges g Hi) in He. destruct (proj2 Hn _ _ He). symmetry. apply zn_inj; auto.
+    - assert (Hm : nm_mem (zn i) (Graph.g_successors g) = false) by (apply nm_mem_false_get; exact Es). rewrite Hm. reflexivity.
+  Qed.
+
+  Lemma edges_in_refines c' i : 0 <= i -> vertices g = g_blocks c' -> edges g = g_edges c' ->
+    edges_in g (zn i) = cfg_edges_in c' i.
+  Proof.
+    intros Hi0 EV EE. unfold edges_in, cfg_edges_in.
+    rewrite <- (has_vertex_block g Hi Hn c' i Hi0 EV). unfold has_vertex. rewrite <- (gi_pkeys g Hi).
+    destruct (nm_get (zn i) (Graph.g_predecessors g)) as [ps|] eqn:Es.
+    - assert (Hm : nm_mem (zn i) (Graph.g_predecessors g) = true) by (apply nm_mem_get; eauto). rewrite Hm, <- EE.
+      pose proof (gi_adj g Hi) as Ha.
+      apply lookup_filter.
+      + apply esorted_map_tail. exact (ai_pset g Ha _ _ Es).
+      + intros k Hk. apply in_map_iff in Hk as (p & <- & Hp). apply (ai_pred g Ha). eauto.
+      + intros e He. rewrite Z.eqb_eq, in_map_iff. unfold ekey_of. split.
+        * intros <-. exists (zn (e_head e)). split; [reflexivity|].
+          assert (Hmem : em_mem (zn (e_head e), zn (e_tail e)) (Graph.g_edges g) = true).
+          { apply em_mem_in. apply in_map_iff. exists ((zn (e_head e), zn (e_tail e)), e). split; [reflexivity | apply (in_edges g Hi); exact He]. }
+          apply (ai_pred g Ha) in Hmem as (p' & Hp' & Hin). congruence.
+        * intros (p & [= K1 K2] & _). apply (in_edges g Hi) in He. destruct (proj2 Hn _ _ He). symmetry. apply zn_inj; auto.
+    - assert (Hm : nm_mem (zn i) (Graph.g_predecessors g) = false) by (apply nm_mem_false_get; exact Es). rewrite Hm. reflexivity.
+  Qed.
+End Lookup.
+
+(* ------------------------------------------------------------------ operations *)
+(* full relation: graph invariant, non-negative indices, non-negative counter *)
+Definition exit_nonneg (c : ecfg) : Prop := forall x, e_exit c = Some x -> 0 <= x.
+Record erel (c : ecfg) : Prop := { er_rel : rel c; er_next : 0 <= e_next c /\ exit_nonneg c }.
+
+Definition commutes {A} (c : ecfg) (r : ecfg * res A) (sr : cfg * res A) : Prop :=
+  sr = (to_static (fst r), snd r) /\ erel (fst r).
+
+Lemma erel_with c g1 : erel c -> rel (with_graph c g1) -> erel (with_graph c g1).
+Proof. intros [_ Hnx] Hr. split; [exact Hr | exact Hnx]. Qed.
+
+Lemma set_entry_commutes c i : erel c -> 0 <= i -> commutes c (set_entry c i) (s_set_entry (to_static c) i).
+Proof.
+  intros [[Hi Hn] Hnx] Hi0. unfold commutes, set_entry, s_set_entry.
+  rewrite (has_vertex_block (eg c) Hi Hn (to_static c) i Hi0 eq_refl).
+  destruct (has_block (to_static c) i); cbn [fst snd]; (split; [reflexivity | split; [split; assumption | exact Hnx]]).
+Qed.
+Lemma set_exit_commutes c i : erel c -> 0 <= i -> commutes c (set_exit c i) (s_set_exit (to_static c) i).
+Proof.
+  intros [[Hi Hn] Hnx] Hi0. unfold commutes, set_exit, s_set_exit.
+  rewrite (has_vertex_block (eg c) Hi Hn (to_static c) i Hi0 eq_refl).
+  destruct (has_block (to_static c) i); cbn [fst snd]; (split; [reflexivity | split; [split; assumption |]]); [|exact Hnx].
+  split; [exact (proj1 Hnx) | intros x [= <-]; exact Hi0].
+Qed.
+
+Lemma new_block_commutes c : erel c -> commutes c (new_block c) (s_new_block (to_static c)).
+Proof.
+  intros [[Hi Hn] Hnx]. unfold commutes, new_block, s_new_block.
+  set (c1 := mkE (eg c) (e_next c + 1) (e_entry c) (e_exit c)).
+  assert (Hr1 : rel c1) by (split; assumption).
+  assert (Eb : bump (to_static c) = to_static c1) by reflexivity.
+  cbn [to_static g_next_index]. rewrite Eb.
+  pose proof (insert_vertex_refines c1 (block_new (e_next c)) Hr1 (proj1 Hnx)) as K. cbn [c1 eg] in K.
+  destruct (insert_vertex (eg c) (block_new (e_next c))) as [g1| |]; cbn [fst snd].
+  - destruct K as [K1 K2]. fold c1. rewrite K1. split; [reflexivity|]. split; [exact K2 | split; [cbn; lia | exact (proj2 Hnx)]].
+  - fold c1. rewrite K. split; [reflexivity|]. split; [exact Hr1 | split; [cbn; lia | exact (proj2 Hnx)]].
+  - destruct K.
+Qed.
+
+Lemma ins_edge_commutes c e : erel c -> 0 <= e_head e -> 0 <= e_tail e ->
+  commutes c (ins_edge c e) (s_ins_edge (to_static c) e).
+Proof.
+  intros [Hr Hnx] Hh Ht. unfold commutes, ins_edge, s_ins_edge.
+  pose proof (insert_edge_refines c e Hr Hh Ht) as K.
+  destruct (insert_edge (eg c) e) as [g1| |]; cbn [fst snd].
+  - destruct K as [K1 K2]. rewrite K1. split; [reflexivity | apply erel_with; [split|]; assumption].
+  - rewrite K. split; [reflexivity | split; assumption].
+  - destruct K.
+Qed.
+
+Lemma vertex_refines c i : rel c -> 0 <= i -> vertex (eg c) (zn i) = cfg_block (to_static c) i.
+Proof.
+  intros [Hi Hn] Hi0. unfold vertex, cfg_block. cbn [to_static g_blocks]. rewrite (get_find (eg c) Hi Hn i Hi0). reflexivity.
+Qed.
+
+(* updating with a function that only matters on the block found *)
+Lemma update_agree (g : G) k f1 f2 : (forall v, nm_get k (Graph.g_vertices g) = Some v -> f1 v = f2 v) ->
+  update_vertex g k f1 = update_vertex g k f2.
+Proof. intros H. unfold update_vertex. destruct (nm_get k (Graph.g_vertices g)) as [v|]; [rewrite (H v eq_refl)|]; reflexivity. Qed.
+Lemma s_update_agree g i f1 f2 : (forall b, In b (g_blocks g) -> b_index b = i -> f1 b = f2 b) ->
+  s_update_block g i f1 = s_update_block g i f2.
+Proof.
+  intros H. unfold s_update_block. destruct (find_block (g_blocks g) i); [|reflexivity]. f_equal. f_equal.
+  apply map_ext_in. intros x Hx. destruct (b_index x =? i) eqn:E; [apply Z.eqb_eq in E; apply H; assumption | reflexivity].
+Qed.
+
+Lemma on_block_commutes c i f : erel c -> 0 <= i -> (forall b b', f b = Ok b' -> b_index b' = b_index b) ->
+  commutes c (on_block c i f) (s_on_block (to_static c) i f).
+Proof.
+  intros [Hr Hnx] Hi0 Hf. pose proof Hr as [Hi Hn]. unfold commutes, on_block, s_on_block.
+  rewrite (vertex_refines c i Hr Hi0). unfold cfg_block.
+  destruct (find_block (g_blocks (to_static c)) i) as [b|] eqn:F; cbn [fst snd]; [|split; [reflexivity | split; assumption]].
+  destruct (f b) as [b'| |] eqn:Efb; cbn [fst snd]; try (split; [reflexivity | split; assumption]).
+  set (fn := fun x : block => if b_index b' =? b_index x then b' else x).
+  assert (Hfn : forall x, b_index (fn x) = b_index x).
+  { intros x. unfold fn. destruct (b_index b' =? b_index x) eqn:E; [apply Z.eqb_eq in E; exact E | reflexivity]. }
+  pose proof (find_block_some _ _ _ F) as [Hb Hbi].
+  assert (Hbb' : b_index b' = i) by (rewrite (Hf b b' Efb); exact Hbi).
+  rewrite (update_agree (eg c) (zn i) (fun _ => b') fn).
+  2:{ intros v Hv. rewrite (get_find (eg c) Hi Hn i Hi0) in Hv. cbn [to_static g_blocks] in F. rewrite F in Hv. injection Hv as <-.
+      unfold fn. rewrite Hbb', Hbi, Z.eqb_refl. reflexivity. }
+  rewrite (s_update_agree (to_static c) i (fun _ => b') fn).
+  2:{ intros x Hx Hxi. unfold fn. rewrite Hbb', Hxi, Z.eqb_refl. reflexivity. }
+  pose proof (update_vertex_refines c i fn Hr Hi0 Hfn) as K.
+  destruct (update_vertex (eg c) (zn i) fn) as [g1| |]; cbn [fst snd].
+  - destruct K as [K1 K2]. rewrite K1. split; [reflexivity | apply erel_with; [split|]; assumption].
+  - rewrite K. split; [reflexivity | split; assumption].
+  - destruct K.
+Qed.
+
+Lemma set_address_commutes c a : erel c ->
+  s_set_address (to_static c) a = to_static (set_address c a) /\ erel (set_address c a).
+Proof.
+  intros [[Hi Hn] Hnx]. split.
+  - unfold s_set_address, set_address, to_static, s_with, vertices, edges. cbn [eg with_graph Graph.g_vertices Graph.g_edges g_blocks g_edges g_next_index g_entry g_exit e_next e_entry e_exit].
+    rewrite !map_map. reflexivity.
+  - split; [split|exact Hnx].
+    + apply (set_address_ginv c a). exact Hi.
+    + destruct Hn as [Hnv Hne]. split.
+      * intros k v Hv. cbn [set_address eg with_graph Graph.g_vertices] in Hv. apply in_map_iff in Hv as ([k' v'] & [= <- <-] & Hin).
+        cbn [snd]. exact (Hnv k' v' Hin).
+      * intros k e He. exact (Hne k e He).
+Qed.
+
+(* ---- merge ---- *)
+Lemma memN_memZ x l : 0 <= x -> (forall y, In y l -> 0 <= y) -> memN (zn x) (map zn l) = memZ x l.
+Proof.
+  intros Hx Hl. unfold memN, memZ. induction l as [|y t IH]; cbn [map existsb]; [reflexivity|].
+  rewrite IH by (intros z Hz; apply Hl; right; exact Hz). f_equal.
+  destruct (x =? y) eqn:E.
+  - apply Z.eqb_eq in E. subst. apply N.eqb_refl.
+  - apply N.eqb_neq. intros K. apply zn_inj in K; [apply Z.eqb_neq in E; contradiction | exact Hx | apply Hl; left; reflexivity].
+Qed.
+
+Lemma edge_in_nonneg c e : rel c -> In e (edges (eg c)) -> 0 <= e_head e /\ 0 <= e_tail e.
+Proof. intros [Hi Hn] He. apply (in_edges (eg c) Hi) in He. exact (proj2 Hn _ _ He). Qed.
+Lemma block_in_nonneg c b : rel c -> In b (vertices (eg c)) -> 0 <= b_index b.
+Proof. intros [Hi Hn] Hb. apply (in_vertices (eg c) Hi) in Hb. exact (proj1 Hn _ _ Hb). Qed.
+
+Lemma out_head_in g i e l : cfg_edges_out g i = Ok (e :: l) -> In e (g_edges g).
+Proof.
+  unfold cfg_edges_out. destruct (has_block g i); [|discriminate]. intros [= E].
+  assert (H : In e (filter (fun e0 => e_head e0 =? i) (g_edges g))) by (rewrite E; left; reflexivity).
+  apply filter_In in H as [H _]. exact H.
+Qed.
+Lemma out_all_in g i l e : cfg_edges_out g i = Ok l -> In e l -> In e (g_edges g).
+Proof.
+  unfold cfg_edges_out. destruct (has_block g i); [|discriminate]. intros [= <-] H.
+  apply filter_In in H as [H _]. exact H.
+Qed.
+
+Lemma merge_scan_commutes c : rel c -> forall bs being ms,
+  (forall b, In b bs -> In b (vertices (eg c))) -> (forall y, In y being -> 0 <= y) ->
+  merge_scan c bs (map zn being) ms = s_merge_scan (to_static c) bs being ms.
+Proof.
+  intros Hr. pose proof Hr as [Hi Hn].
+  induction bs as [|b rest IH]; intros being ms Hbs Hbe; cbn [merge_scan s_merge_scan]; [reflexivity|].
+  assert (Hrest : forall x, In x rest -> In x (vertices (eg c))) by (intros x Hx; apply Hbs; right; exact Hx).
+  assert (Hb0 : 0 <= b_index b) by (apply (block_in_nonneg c b Hr); apply Hbs; left; reflexivity).
+  rewrite (memN_memZ _ _ Hb0 Hbe). destruct (memZ (b_index b) being); [apply IH; assumption|].
+  rewrite (edges_out_refines (eg c) Hi Hn (to_static c) (b_index b) Hb0 eq_refl eq_refl).
+  destruct (cfg_edges_out (to_static c) (b_index b)) as [[|e [|e2 l]]| |] eqn:Eo; try reflexivity; try (apply IH; assumption).
+  assert (He : In e (edges (eg c))) by exact (out_head_in _ _ _ _ Eo).
+  destruct (edge_in_nonneg c e Hr He) as [_ Ht0].
+  destruct (e_cond e); [apply IH; assumption|].
+  change (e_entry c) with (g_entry (to_static c)).
+  destruct (match g_entry (to_static c) with Some en => en =? e_tail e | None => false end); [apply IH; assumption|].
+  destruct (e_tail e =? b_index b); [apply IH; assumption|].
+  rewrite (memN_memZ _ _ Ht0 Hbe). destruct (memZ (e_tail e) being); [apply IH; assumption|].
+  rewrite (edges_in_refines (eg c) Hi Hn (to_static c) (e_tail e) Ht0 eq_refl eq_refl).
+  destruct (cfg_edges_in (to_static c) (e_tail e)) as [[|e1 [|e1' l']]| |]; try reflexivity; try (apply IH; assumption).
+  apply (IH (e_tail e :: b_index b :: being)); [assumption|].
+  intros y [<-|[<-|Hy]]; auto.
+Qed.
+
+Lemma s_scan_nonneg g bs : forall being ms ms',
+  (forall b, In b bs -> 0 <= b_index b) -> (forall e, In e (g_edges g) -> 0 <= e_tail e) ->
+  (forall m s, In (m, s) ms -> 0 <= m /\ 0 <= s) ->
+  s_merge_scan g bs being ms = Ok ms' -> forall m s, In (m, s) ms' -> 0 <= m /\ 0 <= s.
+Proof.
+  induction bs as [|b rest IH]; intros being ms ms' Hbs Hes Hms; cbn [s_merge_scan].
+  - intros [= <-]. exact Hms.
+  - assert (Hrest : forall x, In x rest -> 0 <= b_index x) by (intros x Hx; apply Hbs; right; exact Hx).
+    destruct (memZ (b_index b) being); [apply IH; assumption|].
+    destruct (cfg_edges_out g (b_index b)) as [[|e [|e2 l]]| |] eqn:Eo; try discriminate; try (apply IH; assumption).
+    destruct (e_cond e); [apply IH; assumption|].
+    destruct (match g_entry g with Some en => en =? e_tail e | None => false end); [apply IH; assumption|].
+    destruct (e_tail e =? b_index b); [apply IH; assumption|].
+    destruct (memZ (e_tail e) being); [apply IH; assumption|].
+    destruct (cfg_edges_in g (e_tail e)) as [[|e1 [|e1' l']]| |]; try discriminate; try (apply IH; assumption).
+    apply IH; [assumption | assumption|].
+    intros m s Hin. apply in_app_or in Hin as [Hin|[[= <- <-]|[]]]; [apply Hms; exact Hin|].
+    split; [apply Hbs; left; reflexivity|]. apply Hes. exact (out_head_in _ _ _ _ Eo).
+Qed.
+
+Lemma insert_edges_commutes es : forall c, erel c -> (forall e, In e es -> 0 <= e_head e /\ 0 <= e_tail e) ->
+  commutes c (insert_edges c es) (s_insert_edges (to_static c) es).
+Proof.
+  induction es as [|e t IH]; intros c Hr Hes; cbn [insert_edges s_insert_edges].
+  - split; [reflexivity | exact Hr].
+  - destruct (Hes e (or_introl eq_refl)) as [Hh Ht].
+    destruct (ins_edge_commutes c e Hr Hh Ht) as [K1 K2]. rewrite K1.
+    destruct (ins_edge c e) as [c' [u| |]]; cbn [fst snd] in *; try (split; [reflexivity | exact K2]).
+    apply IH; [exact K2 | intros e' He'; apply Hes; right; exact He'].
+Qed.
+
+Lemma merge_one_commutes c m s : erel c -> 0 <= m -> 0 <= s ->
+  commutes c (merge_one c m s) (s_merge_one (to_static c) m s).
+Proof.
+  intros [Hr Hnx] Hm0 Hs0. unfold commutes, merge_one, s_merge_one.
+  rewrite (vertex_refines c s Hr Hs0).
+  destruct (cfg_block (to_static c) s) as [sb| |]; cbn [fst snd]; try (split; [reflexivity | split; assumption]).
+  pose proof (update_vertex_refines c m (fun b => block_append b sb) Hr Hm0 (fun v => block_append_index v sb)) as K.
+  destruct (update_vertex (eg c) (zn m) (fun b => block_append b sb)) as [g1| |]; cbn [fst snd];
+    [|rewrite K; split; [reflexivity | split; assumption] | destruct K].
+  destruct K as [K1 Hr1]. rewrite K1. set (c1 := with_graph c g1) in *.
+  pose proof Hr1 as [Hi1 Hn1].
+  assert (Eo : edges_out g1 (zn s) = cfg_edges_out (to_static c1) s) by (apply (edges_out_refines g1 Hi1 Hn1 (to_static c1) s Hs0); reflexivity).
+  rewrite Eo.
+  destruct (cfg_edges_out (to_static c1) s) as [outs| |] eqn:Eouts; cbn [fst snd];
+    try (split; [reflexivity | split; [exact Hr1 | exact Hnx]]).
+  assert (Hes : forall e, In e (map (fun e => mkedge m (e_tail e) (e_cond e)) outs) -> 0 <= e_head e /\ 0 <= e_tail e).
+  { intros e He. apply in_map_iff in He as (e0 & <- & He0). cbn [e_head e_tail]. split; [exact Hm0|].
+    exact (proj2 (edge_in_nonneg c1 e0 Hr1 (out_all_in _ _ _ _ Eouts He0))). }
+  assert (Her1 : erel c1) by (split; [exact Hr1 | exact Hnx]).
+  destruct (insert_edges_commutes _ c1 Her1 Hes) as [K2 Her2]. rewrite K2.
+  destruct (insert_edges c1 (map (fun e => mkedge m (e_tail e) (e_cond e)) outs)) as [c2 [u| |]]; cbn [fst snd] in *;
+    try (split; [reflexivity | exact Her2]).
+  pose proof (remove_vertex_refines c2 s (er_rel _ Her2) Hs0) as K3.
+  destruct (remove_vertex (eg c2) (zn s)) as [g3| |]; cbn [fst snd];
+    [|rewrite K3; split; [reflexivity | exact Her2] | destruct K3].
+  destruct K3 as [K3 Hr3]. rewrite K3. cbn [to_static g_blocks g_edges g_next_index g_entry g_exit with_graph eg e_next e_entry e_exit].
+  split; [reflexivity|]. split; [destruct Hr3 as [A B]; split; assumption|].
+  destruct (er_next _ Her2) as [N1 N2]. split; [exact N1|].
+  intros x. cbn [e_exit]. destruct (e_exit c2) as [x0|] eqn:Ex; [|discriminate].
+  destruct (x0 =? s); intros [= <-]; [exact Hm0 | exact (N2 x0 Ex)].
+Qed.
+
+Lemma merge_apply_commutes ms : forall c, erel c -> (forall m s, In (m, s) ms -> 0 <= m /\ 0 <= s) ->
+  commutes c (merge_apply c ms) (s_merge_apply (to_static c) ms).
+Proof.
+  induction ms as [|[m s] t IH]; intros c Hr Hms; cbn [merge_apply s_merge_apply].
+  - split; [reflexivity | exact Hr].
+  - destruct (Hms m s (or_introl eq_refl)) as [Hm0 Hs0].
+    destruct (merge_one_commutes c m s Hr Hm0 Hs0) as [K1 K2]. rewrite K1.
+    destruct (merge_one c m s) as [c' [u| |]]; cbn [fst snd] in *; try (split; [reflexivity | exact K2]).
+    apply IH; [exact K2 | intros m' s' H; apply Hms; right; exact H].
+Qed.
+
+Lemma merge_loop_commutes fuel : forall c, erel c ->
+  commutes c (merge_loop fuel c) (s_merge_loop fuel (to_static c)).
+Proof.
+  induction fuel as [|n IH]; intros c Hr; cbn [merge_loop s_merge_loop]; [split; [reflexivity | exact Hr]|].
+  pose proof (merge_scan_commutes c (er_rel _ Hr) (vertices (eg c)) [] [] (fun b H => H) (fun y H => match H with end)) as Esc.
+  cbn [map] in Esc. rewrite Esc. change (g_blocks (to_static c)) with (vertices (eg c)).
+  destruct (s_merge_scan (to_static c) (vertices (eg c)) [] []) as [[|p ms]| |] eqn:Es; cbn [fst snd];
+    try (split; [reflexivity | exact Hr]).
+  assert (Hnn : forall m s, In (m, s) (p :: ms) -> 0 <= m /\ 0 <= s).
+  { apply (s_scan_nonneg (to_static c) (vertices (eg c)) [] [] (p :: ms)); [| | intros ? ? [] | exact Es].
+    - intros b Hb. exact (block_in_nonneg c b (er_rel _ Hr) Hb).
+    - intros e He. exact (proj2 (edge_in_nonneg c e (er_rel _ Hr) He)). }
+  destruct (merge_apply_commutes (p :: ms) c Hr Hnn) as [K1 K2]. rewrite K1.
+  destruct (merge_apply c (p :: ms)) as [c' [u| |]]; cbn [fst snd] in *; try (split; [reflexivity | exact K2]).
+  apply IH. exact K2.
+Qed.
+
+Lemma merge_commutes c : erel c -> commutes c (merge c) (s_merge (to_static c)).
+Proof.
+  intros Hr. unfold merge, s_merge. cbn [to_static g_blocks]. unfold vertices. rewrite map_length. apply merge_loop_commutes. exact Hr.
+Qed.
+
+(* ---- append / insert ---- *)
+Definition map_nonneg (m : list (Z * Z)) : Prop := forall k v, In (k, v) m -> 0 <= v.
+
+Lemma import_blocks_commutes bs : forall c m, erel c -> map_nonneg m ->
+  let r := import_blocks c bs m in
+  s_import_blocks (to_static c) bs m = (to_static (fst (fst r)), snd (fst r), snd r) /\
+  erel (fst (fst r)) /\ map_nonneg (snd (fst r)) /\ e_exit (fst (fst r)) = e_exit c /\ e_entry (fst (fst r)) = e_entry c.
+Proof.
+  induction bs as [|b t IH]; intros c m Hr Hm; cbn [import_blocks s_import_blocks].
+  - cbn. auto.
+  - destruct Hr as [[Hi Hn] Hnx].
+    set (c1 := mkE (eg c) (e_next c + 1) (e_entry c) (e_exit c)).
+    assert (Hr1 : rel c1) by (split; assumption).
+    assert (Eb : bump (to_static c) = to_static c1) by reflexivity.
+    cbn [to_static g_next_index]. rewrite Eb.
+    assert (Hm' : map_nonneg (m ++ [(b_index b, e_next c)])).
+    { intros k v Hin. apply in_app_or in Hin as [Hin|[[= <- <-]|[]]]; [exact (Hm k v Hin) | exact (proj1 Hnx)]. }
+    pose proof (insert_vertex_refines c1 (block_clone_new_index b (e_next c)) Hr1 (proj1 Hnx)) as K. cbn [c1 eg] in K.
+    destruct (insert_vertex (eg c) (block_clone_new_index b (e_next c))) as [g1| |].
+    + destruct K as [K1 K2]. fold c1. rewrite K1.
+      assert (He1 : erel (with_graph c1 g1)) by (split; [exact K2 | split; [cbn; lia | exact (proj2 Hnx)]]).
+      destruct (IH (with_graph c1 g1) _ He1 Hm') as (E & A & B & C & D). cbn zeta in *. fold c1.
+      rewrite E. auto.
+    + fold c1. rewrite K. cbn. split; [reflexivity|]. split; [split; [exact Hr1 | split; [cbn; lia | exact (proj2 Hnx)]]|]. auto.
+    + destruct K.
+Qed.
+
+Lemma import_edges_commutes es : forall c m, erel c -> map_nonneg m ->
+  commutes c (import_edges c es m) (s_import_edges (to_static c) es m) /\
+  e_exit (fst (import_edges c es m)) = e_exit c /\ e_entry (fst (import_edges c es m)) = e_entry c /\
+  e_next (fst (import_edges c es m)) = e_next c.
+Proof.
+  induction es as [|e t IH]; intros c m Hr Hm; cbn [import_edges s_import_edges].
+  - split; [split; [reflexivity | exact Hr] | auto].
+  - destruct (zmap_get m (e_head e)) as [h| |] eqn:Eh; cbn [fst snd]; try (split; [split; [reflexivity | exact Hr] | auto]).
+    destruct (zmap_get m (e_tail e)) as [tl| |] eqn:Et; cbn [fst snd]; try (split; [split; [reflexivity | exact Hr] | auto]).
+    assert (Hh : 0 <= h) by (apply (Hm (e_head e)); apply zmap_get_in; exact Eh).
+    assert (Ht : 0 <= tl) by (apply (Hm (e_tail e)); apply zmap_get_in; exact Et).
+    destruct (ins_edge_commutes c (mkedge h tl (e_cond e)) Hr Hh Ht) as [K1 K2]. rewrite K1.
+    assert (Hsame : e_exit (fst (ins_edge c (mkedge h tl (e_cond e)))) = e_exit c /\ e_entry (fst (ins_edge c (mkedge h tl (e_cond e)))) = e_entry c
+                    /\ e_next (fst (ins_edge c (mkedge h tl (e_cond e)))) = e_next c).
+    { unfold ins_edge. destruct (insert_edge (eg c) (mkedge h tl (e_cond e))); cbn; auto. }
+    destruct (ins_edge c (mkedge h tl (e_cond e))) as [c' [u| |]]; cbn [fst snd] in *; try (split; [split; [reflexivity | exact K2] | exact Hsame]).
+    destruct (IH c' m K2 Hm) as (A & B & C & D). split; [exact A|]. destruct Hsame as (S1 & S2 & S3). repeat split; congruence.
+Qed.
+
+Lemma num_vertices_empty (g : G) : N.eqb (num_vertices g) 0 = match vertices g with [] => true | _ => false end.
+Proof. unfold num_vertices, vertices. destruct (Graph.g_vertices g); reflexivity. Qed.
+
+Lemma append_commutes c other : erel c -> commutes c (append c other) (s_append (to_static c) (to_static other)).
+Proof.
+  intros Hr. unfold append, s_append. cbn [to_static g_blocks g_edges g_entry g_exit].
+  rewrite num_vertices_empty.
+  assert (Ei : forall o : option Z, isnone o = match o with None => true | _ => false end) by (intros [|]; reflexivity).
+  rewrite !Ei.
+  destruct (negb _ && _); [split; [reflexivity | exact Hr]|].
+  destruct (e_entry other) as [oen|]; [|split; [reflexivity | exact Hr]].
+  destruct (e_exit other) as [oex|]; [|split; [reflexivity | exact Hr]].
+  destruct (import_blocks_commutes (vertices (eg other)) c [] Hr (fun k v H => match H with end)) as (E1 & Hr1 & Hm1 & Ex1 & En1).
+  cbn zeta in *. change (mkcfg (vertices (eg c)) (edges (eg c)) (e_next c) (e_entry c) (e_exit c)) with (to_static c).
+  rewrite E1. destruct (import_blocks c (vertices (eg other)) []) as [[c1 m] [u| |]]; cbn [fst snd] in *;
+    try (split; [reflexivity | exact Hr1]).
+  destruct (import_edges_commutes (edges (eg other)) c1 m Hr1 Hm1) as ([E2 Hr2] & Ex2 & En2 & Nx2). rewrite E2.
+  destruct (import_edges c1 (edges (eg other)) m) as [c2 [u2| |]]; cbn [fst snd] in *; try (split; [reflexivity | exact Hr2]).
+  cbn [to_static g_blocks g_edges g_next_index g_entry g_exit].
+  destruct (vertices (eg c)) as [|b0 bt].
+  - (* appending to an empty graph adopts the entry *)
+    destruct (zmap_get m oen) as [en'| |]; cbn [fst snd]; try (split; [reflexivity | exact Hr2]).
+    destruct (zmap_get m oex) as [ex'| |] eqn:Eex; cbn [fst snd].
+    + split; [reflexivity|]. destruct Hr2 as [R2 [N2 X2]]. split; [destruct R2; split; assumption|]. split; [exact N2|].
+      intros x [= <-]. apply (Hm1 oex). apply zmap_get_in. exact Eex.
+    + split; [reflexivity|]. destruct Hr2 as [R2 [N2 X2]]. split; [destruct R2; split; assumption | split; assumption].
+    + split; [reflexivity|]. destruct Hr2 as [R2 [N2 X2]]. split; [destruct R2; split; assumption | split; assumption].
+  - destruct (e_exit c2) as [ex|] eqn:Eex2; cbn [fst snd]; [|split; [reflexivity | exact Hr2]].
+    destruct (zmap_get m oen) as [en'| |] eqn:Een; cbn [fst snd]; try (split; [reflexivity | exact Hr2]).
+    assert (Hex0 : 0 <= ex) by (apply (proj2 (er_next _ Hr2)); exact Eex2).
+    assert (Hen0 : 0 <= en') by (apply (Hm1 oen); apply zmap_get_in; exact Een).
+    destruct (ins_edge_commutes c2 (mkedge ex en' None) Hr2 Hex0 Hen0) as [K1 K2].
+    change (mkcfg (vertices (eg c2)) (edges (eg c2)) (e_next c2) (e_entry c2) (Some ex)) with (to_static c2) in *.
+    rewrite K1.
+    assert (Hsame : e_next (fst (ins_edge c2 (mkedge ex en' None))) = e_next c2 /\ e_entry (fst (ins_edge c2 (mkedge ex en' None))) = e_entry c2).
+    { unfold ins_edge. destruct (insert_edge (eg c2) (mkedge ex en' None)); cbn; auto. }
+    destruct (ins_edge c2 (mkedge ex en' None)) as [c3 [u3| |]]; cbn [fst snd] in *; try (split; [reflexivity | exact K2]).
+    destruct (zmap_get m oex) as [ex'| |] eqn:Eex; cbn [fst snd]; try (split; [reflexivity | exact K2]).
+    cbn [to_static g_blocks g_edges g_next_index g_entry g_exit].
+    split; [reflexivity|]. destruct K2 as [R3 [N3 X3]]. split; [destruct R3; split; assumption|]. split; [exact N3|].
+    intros x [= <-]. apply (Hm1 oex). apply zmap_get_in. exact Eex.
+Qed.
+
+Lemma insert_commutes c other : erel c -> commutes c (insert c other) (s_insert (to_static c) (to_static other)).
+Proof.
+  intros Hr. unfold insert, s_insert. cbn [to_static g_blocks g_edges g_entry g_exit g_next_index].
+  destruct (e_entry other) as [oen|]; [|split; [reflexivity | exact Hr]].
+  destruct (e_exit other) as [oex|]; [|split; [reflexivity | exact Hr]].
+  set (c0 := mkE (eg c) (e_next c) None None).
+  assert (Hr0 : erel c0).
+  { destruct Hr as [R [N X]]. split; [destruct R; split; assumption|]. split; [exact N | intros x [=]]. }
+  change (mkcfg (vertices (eg c)) (edges (eg c)) (e_next c) None None) with (to_static c0).
+  destruct (import_blocks_commutes (vertices (eg other)) c0 [] Hr0 (fun k v H => match H with end)) as (E1 & Hr1 & Hm1 & _ & _).
+  cbn zeta in *. rewrite E1. destruct (import_blocks c0 (vertices (eg other)) []) as [[c1 m] [u| |]]; cbn [fst snd] in *;
+    try (split; [reflexivity | exact Hr1]).
+  destruct (import_edges_commutes (edges (eg other)) c1 m Hr1 Hm1) as ([E2 Hr2] & _). rewrite E2.
+  destruct (import_edges c1 (edges (eg other)) m) as [c2 [u2| |]]; cbn [fst snd] in *; try (split; [reflexivity | exact Hr2]).
+  destruct (if existsb (fun b => b_index b =? oen) (vertices (eg other)) then match zmap_get m oen with Ok v => Some v | _ => None end else None);
+    [|split; [reflexivity | exact Hr2]].
+  destruct (if existsb (fun b => b_index b =? oex) (vertices (eg other)) then match zmap_get m oex with Ok v => Some v | _ => None end else None);
+    split; try reflexivity; exact Hr2.
+Qed.
+
+(* ---- histories ---- *)
+Definition eop_args_ok (o : eop) : Prop :=
+  match o with
+  | EUncond h t | ECond h t _ => 0 <= h /\ 0 <= t
+  | ESetEntry i | ESetExit i => 0 <= i
+  | EPush b _ => 0 <= b
+  | ERemoveInstr b _ => 0 <= b
+  | _ => True
+  end.
+Definition sop_of (o : eop) : sop :=
+  match o with
+  | ENewBlock => SNewBlock | EUncond h t => SUncond h t | ECond h t c => SCond h t c
+  | ESetEntry i => SSetEntry i | ESetExit i => SSetExit i | EPush b op => SPush b op
+  | ERemoveInstr b i => SRemoveInstr b i | ESetAddress a => SSetAddress a | EMerge => SMerge
+  | EAppend other => SAppend (to_static other) | EInsert other => SInsert (to_static other)
+  end.
+
+(* usize arguments are non-negative: under that proviso the four-map model and the static model
+   agree on every operation, state and result *)
+Theorem e_run_refines c o : erel c -> eop_args_ok o ->
+  to_static (e_run c o) = s_run (to_static c) (sop_of o) /\ erel (e_run c o).
+Proof.
+  intros Hr Ha. destruct o; cbn [e_run s_run sop_of eop_args_ok] in *.
+  - destruct (new_block_commutes c Hr) as [E K]. rewrite E. auto.
+  - destruct Ha. destruct (ins_edge_commutes c (mkedge h t None) Hr) as [E K]; auto. unfold s_unconditional_edge. rewrite E. auto.
+  - destruct Ha. destruct (ins_edge_commutes c (mkedge h t (Some c0)) Hr) as [E K]; auto. unfold s_conditional_edge. rewrite E. auto.
+  - destruct (set_entry_commutes c i Hr Ha) as [E K]. rewrite E. auto.
+  - destruct (set_exit_commutes c i Hr Ha) as [E K]. rewrite E. auto.
+  - destruct (on_block_commutes c b (fun x => Ok (block_push x o)) Hr Ha) as [E K].
+    { intros x x' [= <-]. reflexivity. }
+    unfold s_push_op. rewrite E. auto.
+  - destruct (on_block_commutes c b (fun x => block_remove_instruction x idx) Hr Ha) as [E K].
+    { intros x x'. unfold block_remove_instruction. destruct (remove_first_index (b_instrs x) idx); [|discriminate]. intros [= <-]. reflexivity. }
+    unfold s_remove_instruction. rewrite E. auto.
+  - destruct (set_address_commutes c a Hr) as [E K]. rewrite E. auto.
+  - destruct (merge_commutes c Hr) as [E K]. rewrite E. auto.
+  - destruct (append_commutes c other Hr) as [E K]. rewrite E. auto.
+  - destruct (insert_commutes c other Hr) as [E K]. rewrite E. auto.
+Qed.
+
+Lemma erel_new : erel ecfg_new.
+Proof.
+  split; [split; [exact graph_inv_new | split; intros ? ? []]|]. split; [cbn; lia | intros x [=]].
+Qed.
+
+(* C15: after any history with non-negative (usize) arguments from ControlFlowGraph::new(), the static
+   view of the four-map model is the state of the static model after the corresponding history *)
+Theorem history_refines ops : Forall eop_args_ok ops ->
+  to_static (fold_left e_run ops ecfg_new) = fold_left s_run (map sop_of ops) s_new.
+Proof.
+  assert (G : forall c, erel c -> Forall eop_args_ok ops ->
+              to_static (fold_left e_run ops c) = fold_left s_run (map sop_of ops) (to_static c)).
+  { induction ops as [|o t IH]; intros c Hr Ha; cbn [fold_left map]; [reflexivity|].
+    inversion Ha as [|? ? Ho Ht]; subst. destruct (e_run_refines c o Hr Ho) as [E K]. rewrite <- E. apply IH; assumption. }
+  intros Ha. exact (G ecfg_new erel_new Ha).
+Qed.
+
+(* ---- the [U] theorems of the static model, transported to the four-map model ---- *)
+Lemma reachable_fold_gen sops : forall g, reachable g ->
+  Forall (fun o => forall other, o = SAppend other \/ o = SInsert other -> reachable other) sops ->
+  reachable (fold_left s_run sops g).
+Proof.
+  induction sops as [|o t IH]; intros g Hg Hall; cbn [fold_left]; [exact Hg|].
+  inversion Hall as [|? ? Ho Ht]; subst. apply IH; [|exact Ht]. apply reach_op; assumption.
+Qed.
+
+(* histories whose appended / inserted graphs are themselves (static views of) reachable graphs *)
+Definition eop_other_ok (o : eop) : Prop :=
+  match o with EAppend other | EInsert other => reachable (to_static other) | _ => True end.
+
+Theorem fourmap_cfg_inv ops : Forall eop_args_ok ops -> Forall eop_other_ok ops ->
+  cfg_inv (to_static (fold_left e_run ops ecfg_new)) = true.
+Proof.
+  intros Ha Ho. rewrite (history_refines ops Ha). apply cfg_inv_preserved.
+  apply reachable_fold_gen; [exact reach_new|].
+  clear Ha. induction Ho as [|o t Ho Ht IH]; cbn [map]; constructor; [|exact IH].
+  intros other [E|E]; destruct o; cbn [sop_of] in E; try discriminate; injection E as <-; exact Ho.
+Qed.
+
+Theorem fourmap_merge_lang c : erel c -> sinv (to_static c) ->
+  snd (merge c) = Ok tt /\ forall w, Lang.lang (to_static (fst (merge c))) w <-> Lang.lang (to_static c) w.
+Proof.
+  intros Hr Hs. destruct (merge_commutes c Hr) as [E _]. destruct (merge_lang (to_static c) Hs) as (H1 & _ & H3).
+  rewrite E in H1, H3. cbn [fst snd] in H1, H3. auto.
+Qed.
